@@ -1,0 +1,53 @@
+//go:build verif
+
+// Contracts for gocv (see /verif/DESIGN.md). Comment-only file: takes no part in any build.
+
+package mavl
+
+// ---- C04: pending state updates reach the database only through Commit (per-call protocol) ---------------
+// The tree operations themselves (Load/Set/Hash work on an in-memory copy-on-write tree, Save persists it)
+// are abstract here; what is proved is which of them each store operation may call, and on what.
+//@ pure func (*sync.Map).Load
+//@ pure func (*sync.Map).Store
+//@ pure func (*sync.Map).Delete
+//@ pure func github.com/33cn/chain33/system/store/mavl/db.NewTree
+//@ pure func (*github.com/33cn/chain33/system/store/mavl/db.Tree).SetBlockHeight
+//@ pure func (*github.com/33cn/chain33/system/store/mavl/db.Tree).Load
+//@ pure func (*github.com/33cn/chain33/system/store/mavl/db.Tree).Set
+//@ pure func (*github.com/33cn/chain33/system/store/mavl/db.Tree).Hash
+//@ pure func (*github.com/33cn/chain33/system/store/mavl/db.Tree).Save
+//@ pure func (*github.com/33cn/chain33/system/store/mavl/db.Tree).Get
+//@ pure func (*github.com/33cn/chain33/system/store.BaseStore).GetDB
+//@ pure func github.com/33cn/chain33/types.Now
+//@ pure func github.com/33cn/chain33/types.Since
+//@ pure func github.com/33cn/chain33/common.ToHex
+
+// computing a pending update: load the parent root, apply the writes in order, remember the tree under its
+// new root - and never save
+//@ func (*Store).MemSet [C04]
+//@   opt safety=assumed overflow=assumed
+//@   requires datas != nil
+//@   ensures !called(Save)
+//@   assert@call Tree).Load: arg1 == datas.StateHash
+//@   assert@call Tree).Set#1: arg0 == ret(NewTree) && arg1 == datas.KV[i].Key && arg2 == datas.KV[i].Value && ret(Load) == nil
+//@   assert@call Map).Store#1: asstring(arg1) == bytes(ret(Hash)) && unbox(arg2) == ret(NewTree)
+//@   ensures result1 == nil && len(datas.KV) != 0 ==> result0 == ret(Hash) && called(Store, 1)
+//@   loop 0 invariant 0 <= i
+
+// rolling back forgets the pending tree and touches nothing else
+//@ func (*Store).Rollback [C04]
+//@   opt safety=assumed
+//@   requires req != nil
+//@   ensures !called(Save)
+//@   assert@call Map).Delete: asstring(arg1) == bytes(req.Hash) && ret1(Load)
+//@   ensures result1 == nil ==> called(Delete)
+
+// committing saves exactly the pending tree of the requested root, then forgets it
+//@ func (*Store).Commit [C04]
+//@   opt safety=assumed
+//@   requires req != nil
+//@   assert@call Map).Load: asstring(arg1) == bytes(req.Hash)
+//@   assert@call Tree).Save: ret1(Load) && ret0(Load) != nil
+//@   assert@call Map).Delete: asstring(arg1) == bytes(req.Hash)
+//@   ensures result1 == nil && ret0(Load) != nil ==> called(Save) && called(Delete)
+//@   ensures !ret1(Load) ==> result1 != nil && !called(Save) && !called(Delete)
